@@ -1,6 +1,7 @@
 (* C02 - notify delivers every payload intact.  The slot formula is GENERATED from its four copies in sc_notify.c. *)
 From Coq Require Import ZArith List Bool Permutation.
-From ScV Require Import Base.CInt Gen.NotifyC01 C02.SlotProofs C02.PayloadModel C01.MergeModel C01.MergeProofs C01.MergeCorr Gen.Consts MPI.Prog C01.NotifyProgs C01.NotifyProgProofs C01.NaryArith C01.NaryDelivery C01.RecordOps C01.BinaryRound C01.NaryRound C01.NaryCore C01.PexRound C01.NbxProofs.
+From ScV Require Import Base.CInt Gen.NotifyC01 C02.SlotProofs C02.PayloadModel C01.MergeModel C01.MergeProofs C01.MergeCorr Gen.Consts MPI.Prog C01.NotifyProgs C01.NotifyProgProofs C01.NaryArith C01.NaryDelivery C01.RecordOps C01.BinaryRound C01.NaryRound C01.NaryCore C01.PexRound C01.NbxProofs C01.RangesRound C01.SupersetProofs C02.CensusvProofs.
+From ScV Require C15.RangesModel.
 Import ListNotations.
 Local Open Scope Z_scope.
 
@@ -179,3 +180,58 @@ Theorem C02_nbx_round_semantics : forall P (R : Z -> list Z) (pay : Z -> Z -> pa
      Some (result final (map (fun s => pay s me) final))).
 Proof. exact nbx_round. Qed.
 Print Assumptions C02_nbx_round_semantics.
+
+(* ---- ranges with payload: see C01_ranges_round_semantics (hp = true: pay s me at the position of sender s; ranks that are
+   only inside a range send flag 0 and their (uninitialised) bytes are ignored) *)
+Theorem C02_ranges_round_semantics : forall (coll : Z -> list payload -> Z -> payload),
+  (forall cs r, coll K_ALLREDUCE_MAX cs r =
+     [RangesModel.allreduce_max (map (fun c => nth 0 c 0) cs); RangesModel.allreduce_max (map (fun c => nth 1 c 0) cs)]) ->
+  (forall cs r, coll K_ALLGATHER cs r = concat cs) ->
+  forall P (R : Z -> list Z) (pay : Z -> Z -> payload) (hp : bool) sz nr, 0 < P -> 1 <= nr ->
+  (forall f, 0 <= f < P -> ssorted (fun x => x) (R f) /\ forall t, In t (R f) -> 0 <= t < P) ->
+  forall me, 0 <= me < P ->
+  let rcv := RangesModel.receivers (gtbl P R nr) me in
+  let snds := RangesModel.senders (gtbl P R nr) me in
+  run ([coll K_ALLREDUCE_MAX (map (contrib1 P R nr) (ranks P)) me; coll K_ALLGATHER (map (contrib2 P R nr) (ranks P)) me]
+         ++ repeat [] (length rcv) ++ map (fun q => q :: rmsg R pay hp sz q me) snds)
+      (ranges_core P me nr (R me) (rep R pay hp me) sz (fun s g => Ret (result s g)))
+  = (Coll K_ALLREDUCE_MAX (-1) (contrib1 P R nr me) :: Coll K_ALLGATHER (-1) (contrib2 P R nr me)
+       :: map (fun q => Send q c_SC_TAG_NOTIFY_RANGES (rmsg R pay hp sz me q)) rcv ++ map (fun q => Recv q c_SC_TAG_NOTIFY_RANGES) snds,
+     Some (result (transpose P R me) (if hp then map (fun s => pay s me) (transpose P R me) else []))).
+Proof. exact ranges_round. Qed.
+Print Assumptions C02_ranges_round_semantics.
+
+(* ---- superset with payload: see C01_superset_round_semantics *)
+Theorem C02_superset_round_semantics : forall P (R : Z -> list Z) (pay : Z -> Z -> payload) (extra : Z -> list Z) (supers : list Z) me (xs : list Z),
+  Permutation supers (transpose P R me ++ xs) ->
+  forall (its : list outcome) (order xorder : list Z) (sorted : bool) (fuel : nat),
+  Permutation order (transpose P R me) -> Permutation xorder xs ->
+  flat_map o_true its = map (fun s => (s, pay s me)) order -> flat_map o_extra its = xorder ->
+  Forall o_nonneg its -> no_trailing_none its -> (length its < fuel)%nat ->
+  let final := if sorted then transpose P R me else order in
+  run (repeat [] (length (R me)) ++ repeat [] (length (extra me)) ++ flat_map o_replies its)
+      (super_core fuel (R me) (Some (map (pay me) (R me))) (extra me) supers sorted (fun s g => Ret (result s g)))
+  = (map (fun r => Send r c_SC_TAG_NOTIFY_SUPER_TRUE (pay me r)) (R me)
+       ++ map (fun q => Send q c_SC_TAG_NOTIFY_SUPER_EXTRA []) (extra me) ++ flat_map o_acts its,
+     Some (result final (map (fun s => pay s me) final))).
+Proof. exact superset_round. Qed.
+Print Assumptions C02_superset_round_semantics.
+
+(* ---- sc_notify_payloadv for pcx (kind = K_RSB) / rsx (K_RMA), program censusv_core (co-simulated with the real code) --------
+   For every receiver family, all slice lengths len s r >= 0 (items of msz bytes), every arrival order: the result is the
+   senders (ascending iff sorted), the output offsets out_offsets of the lengths those senders sent (C02_offsets: start
+   at 0, consecutive differences = lengths) and the concatenation of exactly their slices in that order *)
+Theorem C02_censusv_program : forall (coll : Z -> list payload -> Z -> payload) kind,
+  (forall cs r, coll kind cs r =
+     [fold_right Z.add 0 (map (fun c => nth (Z.to_nat (2 * r)) c 0) cs); fold_right Z.add 0 (map (fun c => nth (Z.to_nat (2 * r + 1)) c 0) cs)]) ->
+  forall P (R : Z -> list Z) (len : Z -> Z -> Z) (slice : Z -> Z -> payload) msz, 0 < P -> 0 < msz ->
+  (forall s r, 0 <= len s r /\ Z.of_nat (length (slice s r)) = len s r * msz) ->
+  forall me (sorted : bool) (order : list Z), 0 <= me < P -> Permutation order (transpose P R me) ->
+  let final := if sorted then transpose P R me else order in
+  run (coll kind (map (cv_contrib P R len) (ranks P)) me :: repeat [] (length (R me)) ++ map (fun s => s :: slice s me) order)
+      (censusv_core kind P (R me) (map (len me) (R me)) (map (slice me) (R me)) msz sorted)
+  = (Coll kind (-1) (cv_contrib P R len me)
+       :: map (fun r => Send r c_SC_TAG_NOTIFY_CENSUSV (slice me r)) (R me) ++ repeat (Recv ANY c_SC_TAG_NOTIFY_CENSUSV) (length order),
+     Some (resultv final (out_offsets (map (fun s => len s me) final)) (concat (map (fun s => slice s me) final)))).
+Proof. exact censusv_round. Qed.
+Print Assumptions C02_censusv_program.
